@@ -10,15 +10,29 @@ pub struct Poisson {
 
 impl Poisson {
     pub fn arrival_probability(&self, delta: Duration, njobs: usize) -> f64 {
-        // quick and dirty naive factorial: k!
-        let mut denominator = 1.0;
-        for x in 1..(njobs + 1) {
-            denominator *= x as f64;
-        }
         let mean = Time::from(delta) as f64 * self.rate;
-        let mut numerator = (-mean).exp(); // e^(- rate * delta)
-        numerator *= mean.powi(njobs as i32); // (rate * delta)**k
-        numerator / denominator
+        if mean <= 0.0 {
+            // degenerate case: nothing arrives in an empty interval
+            return if njobs == 0 { 1.0 } else { 0.0 };
+        }
+        // Evaluate e^(-mean) * mean^k / k! in log space. A direct
+        // evaluation overflows (k!, mean^k) and underflows (e^(-mean))
+        // already for means of a few hundred.
+        let k = njobs as f64;
+        let ln_probability = if njobs < 32 {
+            // ln(k!) by direct summation
+            let ln_factorial: f64 = (2..=njobs).map(|x| (x as f64).ln()).sum();
+            k * mean.ln() - mean - ln_factorial
+        } else {
+            // ln(k!) by Stirling's series, arranged such that the large
+            // terms k * ln(mean) and k * ln(k) do not cancel
+            k * (mean / k).ln() + (k - mean)
+                - 0.5 * (2.0 * std::f64::consts::PI * k).ln()
+                - 1.0 / (12.0 * k)
+                + 1.0 / (360.0 * k.powi(3))
+                - 1.0 / (1260.0 * k.powi(5))
+        };
+        ln_probability.exp()
     }
 
     pub fn approximate(&self, epsilon: f64) -> ApproximatedPoisson {
